@@ -169,7 +169,9 @@ func (p *projector) walk1(rv reflect.Value, static bool) *av.V {
 		return n
 	case reflect.Map:
 		if rv.IsNil() || rv.Len() == 0 {
-			return av.NullV()
+			n := av.NullV()
+			n.EmptyMap = static
+			return n
 		}
 		key := ptrKey{rv.Pointer(), 0, t}
 		if n, ok := p.ptrs[key]; ok {
